@@ -1104,6 +1104,7 @@ type c20ResetCfg struct {
 	cancelAt   int // opportunity index at which the ctx is cancelled (-1 never)
 	closeAt    int // opportunity index at which the keystore is closed (-1 never)
 	postPut    []c20Key
+	again      []c20Key // keys of a further reset run when the one under test was aborted
 	finalClose bool
 	hazard     string
 	putOnly    string // if set: concurrent puts only at gates whose description starts with it, all at once
@@ -1473,7 +1474,20 @@ func c20RunReset(t *testing.T, r *vfRand, pool []c20Key, ids map[string]int, cfg
 		}
 		store.mu.Lock()
 		store.fail = nil
+		phaseNow := tr.phase
 		store.mu.Unlock()
+		for isParked() { // a call still parked although ResetCids has returned
+			doRelease()
+			synctest.Wait()
+		}
+		// after an aborted reset (whatever it left in the alternate slot) a further one must work
+		if out.resetErr != "" && !tr.closed && phaseNow == "idle" && cfg.again != nil {
+			if err := reset(cfg.again, false); err != nil {
+				out.fails = append(out.fails, "a reset after an aborted reset failed: "+err.Error())
+				out.failKind = "content"
+			}
+			out.branches["reset-after-abort"] = true
+		}
 
 		for isParked() { // a call still parked although ResetCids has returned
 			doRelease()
@@ -1703,6 +1717,12 @@ func c20ResetCase(t *testing.T, cs *vfCases, r *vfRand, i int, seed uint64) {
 		cfg.postPut = distinct(1 + r.Intn(3))
 	}
 	cfg.finalClose = r.Chance(50)
+	if r.Chance(60) {
+		cfg.again = distinct(r.Intn(6))
+		if cfg.again == nil {
+			cfg.again = []c20Key{}
+		}
+	}
 	// three directed scenarios at fixed case numbers, so that every run meets them
 	switch i {
 	case 2: // the same key put twice between phase B and the final drain
